@@ -1,5 +1,5 @@
 (* C02 - session lockstep: each call returns exactly the replies to its own commands. *)
-From LibFtp Require Import Bytes Decimal Reply Endpoint Ascii DataConn DataConn_Proofs Client Client_Proofs Login_Proofs Transfer_Proofs Transfer_More.
+From LibFtp Require Import Bytes Decimal Reply Endpoint Ascii DataConn DataConn_Proofs Client Client_Proofs Login_Proofs Transfer_Proofs Transfer_More Modes_Proofs History_Proofs.
 Local Open Scope N_scope.
 
 (* The unit of lockstep: from a state in which nothing is unread or pending, "send one command, receive its reply"
@@ -113,8 +113,31 @@ Theorem C02_listing_in_step : forall w path names r1 r2 rest x1 x2 x3 ip port,
 Proof. exact list_passive_complete. Qed.
 Print Assumptions C02_listing_in_step.
 
-(* PARTIAL / recorded findings: (1) transfers in the active modes, under TLS, with the completion reply written together
-   with the preliminary one, and the ABOR accounting are covered by the correspondence and the lockstep oracle of
+(* THE lockstep theorem over mixed histories. [history rfc calls script repliess] (History_Proofs.v) says: the calls are
+   simple commands, TYPE, rename, downloads, uploads (STOR / STOU / APPE), listings, downloads cancelled by the callback,
+   transfers refused at the set-up command or at the transfer command, in any order and number, and [script] is the
+   concatenation of what an RFC 959 server writes for each of them (one reply per command; preliminary + completion for an
+   accepted transfer; 426 then the ABOR reply for a cancelled one), any codes, any texts, any payloads and segmentations.
+   Then from a session in step (passive modes, no TLS): the k-th call returns exactly the replies generated for its own
+   commands, and the session is in step again at the end - nothing unread, nothing held back, the rest of the peer's
+   script untouched. (A prefix of a history is a history, so this holds after every call.) *)
+Theorem C02_lockstep_mixed_histories : forall cs rss xss w rest,
+  Inv w (rss ++ rest) -> history (c_rfc2428 (w_cfg w)) cs rss xss ->
+  map outcome_replies (fst (steps w cs)) = map Some xss /\ Inv (snd (steps w cs)) rest.
+Proof. exact lockstep_mixed_histories. Qed.
+Print Assumptions C02_lockstep_mixed_histories.
+
+(* non-vacuity: see ex_history in History_Proofs.v (NOOP, download, TYPE A, refused upload, PWD) *)
+Example C02_example_history_runs :
+  let w0 := mkW (mkConfig Passive true TBinary false false) true false false O true false [] [] [] ex_script false false no_plan [] None no_io O 1%nat [] in
+  map outcome_replies (fst (steps w0 ex_calls)) =
+  map Some [[mkReply 200 []]; [mkReply 229 [40;124;124;124;53;124;41]; mkReply 150 []; mkReply 226 []]; [mkReply 200 [65]];
+            [mkReply 229 [40;124;124;124;53;124;41]; mkReply 550 []]; [mkReply 257 []]].
+Proof. vm_compute. reflexivity. Qed.
+
+(* PARTIAL / recorded findings: (1) login / logout / connect inside mixed histories, transfers in the active modes or under
+   TLS inside histories (the single-call theorems exist, see Transfer_More.v), the completion reply written together with
+   the preliminary one, and the other ABOR orders are covered by the correspondence and the lockstep oracle of
    bin/props/proto.py; (2) process_abort reads a second
    reply only after 426 (Client.v, process_abort): against a server that had already completed the transfer, or that
    refuses ABOR, one reply stays unread - KNOWN-FINDING abor/first-reply-not-426 (see known_findings.txt);
